@@ -62,7 +62,7 @@ pub const PROPS: &[Prop] = &[
         quick_runs: 30_000,
         thorough_runs: 1_000_000,
         rule: "grid: descriptor kind {pipe, stream socketpair, dgram socketpair} x initial mode {blocking, non-blocking} x fill {empty, one short of full, full} x burst {1, 2, 7, 300} x entry {pipe::register, register_raw, iterator-internal wake} x ending {unregister, forbidden signal, invalid signal, closed descriptor number} x 2 (second pipe on the same signal or not); then seeded histories. Oracles: bytes read back vs deliveries, would-block probe, descriptor validity after removal/rejection, descriptor-number reuse probe. Non-trivial: the descriptor was full or nearly full, or the registration was rejected. Distinct: by grid cell / history hash.",
-        probes: &[(E_PIPE_FULL, "deliveries_with_full_descriptor"), (E_HIST_REJECTED, "rejected_registrations"), (E_FD_REUSE_PROBE, "descriptor_number_reuse_probes"), (E_HIST_DELIVERIES, "deliveries_made")],
+        probes: &[(E_PIPE_FULL, "deliveries_with_full_descriptor"), (E_HIST_REJECTED, "rejected_registrations"), (E_FD_REUSE_PROBE, "descriptor_number_reuse_probes"), (E_HIST_DELIVERIES, "deliveries_made"), (E_CLOSE_COUNTED, "runs_with_close_calls_counted_by_interposition")],
         real: HIST_REAL,
         stub: HIST_STUB,
         assumptions: &["wall clock only as the watchdog for a wake that blocks anyway"],
@@ -71,10 +71,10 @@ pub const PROPS: &[Prop] = &[
         id: "C14",
         engine: Engine::Hist,
         level: "fault_enumeration",
-        sweep_runs: 4320,
-        quick_runs: 4_320 + 40_000,
-        thorough_runs: 4_320 + 1_500_000,
-        rule: "grid: 16 entry points (registry register/register_sigaction/2 unchecked, flag x4, pipe x2, iterator new/add_signal x 3 exfiltrators) x signal in [-2,130] + {i32::MIN, i32::MAX} x {fresh process, after three other signals were registered}; each cell in its own forked process under catch_unwind; thorough adds seeded mixes. Oracles: panic vs Err vs Ok as documented, dispositions of all 64 signals bit-identical after a rejection, previously registered actions still run, captured flag/descriptor released, library still usable. Non-trivial: the call was rejected (panic or error). Distinct: by grid cell.",
+        sweep_runs: 7695,
+        quick_runs: 7_695 + 40_000,
+        thorough_runs: 7_695 + 1_500_000,
+        rule: "grid: 19 entry points (registry register/register_sigaction/2 unchecked, flag x4, pipe x2, iterator new/add_signal x 3 exfiltrators, iterator new with a two-element list [SIGUSR1, n] x 3) x signal in [-2,130] + {i32::MIN, i32::MAX} x {fresh process, after three other signals were registered, after the same number was registered through an unchecked entry point}; each cell in its own forked process under catch_unwind; thorough adds seeded mixes. Oracles: panic vs Err vs Ok as documented, dispositions of all 64 signals bit-identical after a rejection, previously registered actions still run, captured flag/descriptor released, library still usable. Non-trivial: the call was rejected (panic or error). Distinct: by grid cell.",
         probes: &[(E_HIST_REJECTED, "rejected_calls"), (E_HIST_OPS, "calls_made")],
         real: HIST_REAL,
         stub: HIST_STUB,
@@ -922,6 +922,11 @@ fn c13(spec: &RunSpec) -> ! {
     }
     let mut inst: Option<SignalDelivery<UnixStream, SignalOnly>> = None;
     let before: Vec<(usize, i32)> = (1..=64).map(get_disposition).collect();
+    let interposed = crate::closelog::interposed();
+    if interposed {
+        sim::count(E_CLOSE_COUNTED, 1);
+    }
+    let closes0 = crate::closelog::calls(wr);
     let reg = catch_unwind(AssertUnwindSafe(|| -> Result<Option<SigId>, std::io::Error> {
         match entry {
             0 => {
@@ -971,6 +976,10 @@ fn c13(spec: &RunSpec) -> ! {
             // the descriptor handed over has been closed exactly once and nothing changed
             if ending != 3 && fd_valid(wr) {
                 sim::report("C13", "descriptor-leaked-on-rejection", &format!("registration was rejected ({}) but descriptor {} handed over is still open", outcome, wr), true);
+            }
+            let n = crate::closelog::calls(wr) - closes0;
+            if interposed && n != 1 {
+                sim::report("C13", "descriptor-not-closed-exactly-once", &format!("registration was rejected ({}): close() was called {} times on descriptor number {} that had been handed over (a second close hits whoever reuses the number)", outcome, n, wr), true);
             }
             let after: Vec<(usize, i32)> = (1..=64).map(get_disposition).collect();
             if ending != 0 && after != before && ending != 3 {
@@ -1089,6 +1098,10 @@ fn c13(spec: &RunSpec) -> ! {
     if fd_valid(wr) {
         sim::report("C13", "descriptor-not-closed", &format!("descriptor {} is still open after its action was removed", wr), true);
     }
+    let n = crate::closelog::calls(wr) - closes0;
+    if interposed && n != 1 {
+        sim::report("C13", "descriptor-not-closed-exactly-once", &format!("after removal close() has been called {} times on descriptor number {}", n, wr), true);
+    }
     let (p0, p1) = make_pair(FdKind::Pipe, false);
     sim::count(E_FD_REUSE_PROBE, 1);
     let reused = p0 == wr || p1 == wr;
@@ -1142,7 +1155,7 @@ fn os_accepts(sig: i32) -> bool {
     }
 }
 
-const ENTRY_NAMES: [&str; 16] = [
+const ENTRY_NAMES: [&str; 19] = [
     "registry::register",
     "registry::register_sigaction",
     "registry::register_signal_unchecked",
@@ -1159,25 +1172,33 @@ const ENTRY_NAMES: [&str; 16] = [
     "SignalsInfo<WithRawSiginfo>::add_signal",
     "SignalsInfo<WithOrigin>::new",
     "SignalsInfo<WithOrigin>::add_signal",
+    "Signals::new([SIGUSR1, n])",
+    "SignalsInfo<WithRawSiginfo>::new([SIGUSR1, n])",
+    "SignalsInfo<WithOrigin>::new([SIGUSR1, n])",
 ];
+
+fn open_fds() -> usize {
+    std::fs::read_dir("/proc/self/fd").map(|d| d.count()).unwrap_or(0)
+}
 
 fn c14(spec: &RunSpec) -> ! {
     shm::put_str(&mut shm::get().abort_prop, "C14");
     shm::put_str(&mut shm::get().exit_prop, "C14");
     start(spec);
     let sweep = spec.run < spec.prop.sweep_runs;
-    let (entry, sig, warm) = if sweep {
+    let (entry, sig, warm_mode) = if sweep {
         let mut r = spec.run;
-        let warm = r % 2 == 1;
-        r /= 2;
+        let warm = r % 3;
+        r /= 3;
         let si = r % 135;
         r /= 135;
-        (r as usize % 16, c14_signal(si), warm)
+        (r as usize % 19, c14_signal(si), warm)
     } else {
-        (sim::work(16) as usize, c14_signal(sim::work(135) as u64), sim::work(2) == 1)
+        (sim::work(19) as usize, c14_signal(sim::work(135) as u64), sim::work(3) as u64)
     };
-    sim::note(&format!("{}({}) {}", ENTRY_NAMES[entry], sig, if warm { "after three other signals were registered" } else { "in a fresh process" }));
-    sim::sig_mix(((entry as u64) << 20) ^ ((sig as i64 as u64) << 1) ^ warm as u64);
+    let warm = warm_mode == 1;
+    sim::note(&format!("{}({}) {}", ENTRY_NAMES[entry], sig, ["in a fresh process", "after three other signals were registered", "after the same number was registered through the unchecked entry point"][warm_mode as usize]));
+    sim::sig_mix(((entry as u64) << 20) ^ ((sig as i64 as u64) << 2) ^ warm_mode);
     sim::count(E_HIST_OPS, 1);
     // warm-up: three other signals with tagged actions
     let warm_sigs = [libc::SIGHUP, libc::SIGWINCH, libc::SIGURG];
@@ -1188,8 +1209,15 @@ fn c14(spec: &RunSpec) -> ! {
     }
     let forbidden = C12_FORBIDDEN.contains(&sig);
     let accepted_by_os = os_accepts(sig);
+    // the same number went through the unchecked entry point before (the library's handler is
+    // installed for it and its slot exists): the checked entry points must refuse all the same
+    let mut same_before = false;
+    if warm_mode == 2 && accepted_by_os {
+        same_before = unsafe { signal_hook_registry::register_signal_unchecked(sig, || hist_action(200)).is_ok() };
+    }
     let unchecked = entry == 2 || entry == 3;
     let iterator = entry >= 10;
+    let list2 = entry >= 16;
     let want = if unchecked {
         if accepted_by_os {
             Expect::Ok
@@ -1209,10 +1237,16 @@ fn c14(spec: &RunSpec) -> ! {
     } else {
         Expect::Err
     };
+    if list2 {
+        // make sure SIGUSR1 is taken over already, so that its disposition does not differ after
+        unsafe { signal_hook_registry::register(libc::SIGUSR1, || ()).expect("pre-registration of USR1") };
+    }
     let before: Vec<(usize, i32)> = (1..=64).map(get_disposition).collect();
     let flag = Arc::new(AtomicBool::new(false));
     let uflag = Arc::new(AtomicUsize::new(0));
     let (prd, pwr) = make_pair(FdKind::Stream, false);
+    let closes0 = crate::closelog::calls(pwr);
+    let interposed = crate::closelog::interposed();
     let mut keep_a: Option<SignalsInfo<SignalOnly>> = None;
     let mut keep_b: Option<SignalsInfo<WithRawSiginfo>> = None;
     let mut keep_c: Option<SignalsInfo<WithOrigin>> = None;
@@ -1227,6 +1261,7 @@ fn c14(spec: &RunSpec) -> ! {
     }
     shm::get().expect_set = 2;
     shm::put_str(&mut shm::get().msg, &format!("{}({})", ENTRY_NAMES[entry], sig));
+    let fds_before = open_fds();
     let res = catch_unwind(AssertUnwindSafe(|| -> Result<(), std::io::Error> {
         unsafe {
             match entry {
@@ -1245,7 +1280,10 @@ fn c14(spec: &RunSpec) -> ! {
                 12 => SignalsInfo::<WithRawSiginfo>::new(&[sig]).map(|s| keep_b = Some(s)),
                 13 => keep_b.as_ref().unwrap().add_signal(sig),
                 14 => SignalsInfo::<WithOrigin>::new(&[sig]).map(|s| keep_c = Some(s)),
-                _ => keep_c.as_ref().unwrap().add_signal(sig),
+                15 => keep_c.as_ref().unwrap().add_signal(sig),
+                16 => SignalsInfo::<SignalOnly>::new(&[libc::SIGUSR1, sig]).map(|s| keep_a = Some(s)),
+                17 => SignalsInfo::<WithRawSiginfo>::new(&[libc::SIGUSR1, sig]).map(|s| keep_b = Some(s)),
+                _ => SignalsInfo::<WithOrigin>::new(&[libc::SIGUSR1, sig]).map(|s| keep_c = Some(s)),
             }
         }
     }));
@@ -1278,6 +1316,27 @@ fn c14(spec: &RunSpec) -> ! {
         }
         if (entry == 8 || entry == 9) && fd_valid(pwr) {
             sim::report("C14", "descriptor-leaked", &format!("rejected {}({}) left descriptor {} open", ENTRY_NAMES[entry], sig, pwr), true);
+        }
+        if (entry == 8 || entry == 9) && interposed && crate::closelog::calls(pwr) - closes0 != 1 {
+            sim::report("C14", "descriptor-not-closed-exactly-once", &format!("rejected {}({}) called close() {} times on the descriptor it was given", ENTRY_NAMES[entry], sig, crate::closelog::calls(pwr) - closes0), true);
+        }
+        if entry >= 10 && entry != 11 && entry != 13 && entry != 15 {
+            // a refused constructor leaves nothing behind: no descriptor, no registration
+            let fds_after = open_fds() + if entry == 8 || entry == 9 { 1 } else { 0 };
+            if fds_after != fds_before {
+                sim::report("C14", "descriptor-leaked", &format!("refused {}({}) left {} descriptor(s) open (an action registered for an earlier element of the list keeps the self-pipe alive)", ENTRY_NAMES[entry], sig, fds_after as i64 - fds_before as i64), true);
+            }
+        }
+    }
+    if same_before {
+        ran().clear();
+        deliver(sig, 3);
+        let mut want_ran = vec![200];
+        if got == Expect::Ok && entry <= 3 {
+            want_ran.push(100);
+        }
+        if *ran() != want_ran {
+            sim::report("C14", "registry-disturbed", &format!("after {}({}) = {:?} a delivery of that signal ran {:?} instead of {:?}", ENTRY_NAMES[entry], sig, got, ran(), want_ran), true);
         }
     }
     // previously registered actions still run, exactly as before
